@@ -181,6 +181,25 @@ Example quadratic_forward_error_nonvacuous :
   disc_accurate (pert_ops (/ 1024)) (RtoC 1) (RtoC (-5)) (RtoC 2) (15.33 * / 1024).
 Proof. exact forward_nonvacuous. Qed.
 
+(* the hypothesis discharged in general: with kD >= (|b|^2 + 4|a||c|) / |b^2 - 4ac|, the condition number of the discriminant (large
+   near a double root), the computed discriminant is accurate to 5.11 eps kD, hence -- no hypothesis left but 5.11 eps kD <= 1/6 --
+   both returned values have relative error (6 + 10.22 kD) eps: the conditioning statement of the textbook *)
+Theorem quadratic_forward_error_conditioned : forall (eps : R) (O : RoundOps) (a b c : C) (kD : R),
+  (0 <= eps <= / 100)%R -> std_model eps O -> a <> RtoC 0 -> (0 <= kD)%R ->
+  (Cmod b * Cmod b + 4 * (Cmod a * Cmod c) <= kD * Cmod (qdisc a b c))%R -> (5.11 * eps * kD <= / 6)%R ->
+  exists r0 r1 x0 x1 : C, poly_solve (RoundRAo eps O) [c; b; a] false = Ok ([r0; r1], []) /\
+    (forall x : C, (a * x * x + b * x + c)%C = (a * (x - x0) * (x - x1))%C) /\
+    (Cmod (r0 - x0)%C <= (6 + 10.22 * kD) * eps * Cmod x0)%R /\ (Cmod (r1 - x1)%C <= (6 + 10.22 * kD) * eps * Cmod x1)%R.
+Proof. intros eps O a b c kD. exact (quadratic_forward_conditioned_lemma eps O a b c kD). Qed.
+Check quadratic_forward_error_conditioned : forall (eps : R) (O : RoundOps) (a b c : C) (kD : R),
+  (0 <= eps <= / 100)%R -> std_model eps O -> a <> RtoC 0 -> (0 <= kD)%R ->
+  (Cmod b * Cmod b + 4 * (Cmod a * Cmod c) <= kD * Cmod (qdisc a b c))%R -> (5.11 * eps * kD <= / 6)%R ->
+  exists r0 r1 x0 x1 : C, poly_solve (RoundRAo eps O) [c; b; a] false = Ok ([r0; r1], []) /\
+    (forall x : C, (a * x * x + b * x + c)%C = (a * (x - x0) * (x - x1))%C) /\
+    (Cmod (r0 - x0)%C <= (6 + 10.22 * kD) * eps * Cmod x0)%R /\ (Cmod (r1 - x1)%C <= (6 + 10.22 * kD) * eps * Cmod x1)%R.
+Print Assumptions quadratic_forward_error_conditioned.
+(* non-vacuity: quadratic_forward_error_dominant_nonvacuous below (kD = 3) *)
+
 (* the discriminant IS accurate, with no hypothesis, when one of b^2, 4ac dominates the other by a factor 2 ... *)
 Theorem disc_accurate_dominant : forall (eps : R) (O : RoundOps) (a b c : C),
   (0 <= eps <= / 100)%R -> std_model eps O ->
